@@ -170,7 +170,10 @@ class RebuildCheck:
                 "(+ final file name) over {d, '..', '.', '', absolute path "
                 "inside the sandbox, 'a/../../b', '../..', a sibling directory "
                 "whose name extends the destination's name} and a 12-deep '..' "
-                "chain; each also with a zero-length file; plus benign metafiles "
+                "chain, a path that leaves the destination, names a new directory "
+                "outside and comes back; each also with a zero-length file and "
+                "with a shorter regular file planted where the hostile path "
+                "points; plus benign metafiles "
                 "into a destination that already contains a symlink leading "
                 "outside; destination 20 levels below the sandbox root (cases with more than 20 '..' in total are skipped) so that "
                 "escapes stay observable inside the sandbox",
@@ -561,7 +564,7 @@ class RebuildCheck:
     @staticmethod
     def hostile_alphabet(abs_target):
         return ["d", "..", ".", "", "<ABS>", "a/../../b", "../..",
-                "/".join([".."] * 12), "<SIBLING>"]
+                "/".join([".."] * 12), "<SIBLING>", "<OUT-AND-BACK>"]
 
     def run_hostile(self, g, res):
         seed, ver = g["seed"], g["version"]
@@ -602,7 +605,8 @@ class RebuildCheck:
             for link_at in ("top", "top/d"):
                 for body in (data, b""):
                     variants.append((("d",), "f", False, body, link_at))
-        for seq, last, single, data, link_at in variants:
+        variants = [v + (vic,) for v in variants for vic in (False, True)]
+        for seq, last, single, data, link_at, victims in variants:
             if True:
                 if True:
                     ups = sum(part.split("/").count("..")
@@ -623,7 +627,17 @@ class RebuildCheck:
                     # <SIBLING> = a directory next to the destination whose
                     # name has the destination's name as a prefix
                     sib = "../" + os.path.basename(dest) + "x"
-                    subst = {"<SIBLING>": sib, "<ABS>": abs_target}
+                    # as a path element the walk starts below dest/<name>/,
+                    # as the name itself directly below dest/
+                    rname_depth = 0 if name == "<OUT-AND-BACK>" else 1
+                    # <OUT-AND-BACK> leaves the destination, names a new
+                    # directory outside it and comes back: the resolved
+                    # target is inside, the spelled path walks outside
+                    oab = ("x/../../../newdir_outside/../" +
+                           os.path.basename(dest)) if rname_depth == 1 else \
+                        ("x/../../newdir_outside/../" + os.path.basename(dest))
+                    subst = {"<SIBLING>": sib, "<ABS>": abs_target,
+                             "<OUT-AND-BACK>": oab}
                     rseq = tuple(subst.get(e, e) for e in seq)
                     rname = subst.get(name, name)
                     tree = {(): data} if single else {rseq + (last,): data}
@@ -636,6 +650,27 @@ class RebuildCheck:
                     mp = os.path.join(sb, "m.torrent")
                     with open(mp, "wb") as f:
                         f.write(bencode.encode(m))
+                    planted = []
+                    if victims and not link_at:
+                        # a shorter regular file already sits where the
+                        # hostile path points (outside the destination)
+                        parts = [rname] + ([] if single else
+                                           list(rseq) + [last])
+                        tgt = os.path.normpath(os.path.join(dest, *parts))
+                        rd_ = os.path.realpath(dest)
+                        inside_sb = tgt.startswith(sb + os.sep)
+                        outside_dest = not (tgt == rd_ or
+                                            tgt.startswith(rd_ + os.sep))
+                        if inside_sb and outside_dest and not \
+                                os.path.lexists(tgt):
+                            try:
+                                world.write_file(tgt, b"vic")
+                                planted.append(tgt)
+                            except OSError:
+                                pass
+                        if not planted:
+                            shutil.rmtree(dest, ignore_errors=True)
+                            continue
                     before = world.snapshot(sb)
                     with seams.Audit(None) as audit:
                         st, cnt = run_rebuild([mp], [search], dest)
@@ -672,12 +707,15 @@ class RebuildCheck:
                             hostile = "symlink-in-destination"
                         if not data:
                             hostile += "+empty-file"
+                        if victims:
+                            hostile += "+existing-outside-file"
                         found.append((
                             f"C19|v{ver}|{prob}|hostile-{hostile}",
                             {"kind": "hostile", "version": ver,
                              "ni": g["ni"], "seq": list(seq), "last": last,
                              "single": single, "seed": seed,
-                             "empty": not data, "link": link_at},
+                             "empty": not data, "link": link_at,
+                             "victims": victims},
                             {"changed": ch[:5], "events": bad_ev[:3]}))
                         # clean escaped files so that later cases start clean
                         for k in ch:
@@ -686,6 +724,18 @@ class RebuildCheck:
                                 shutil.rmtree(p, ignore_errors=True) \
                                     if os.path.isdir(p) else os.remove(p)
                     shutil.rmtree(dest, ignore_errors=True)
+                    for t in planted:
+                        # remove the planted victim and the directories
+                        # created for it
+                        top = t
+                        while os.path.dirname(top) not in (sb, deep) and \
+                                os.path.dirname(top).startswith(sb) and \
+                                not os.listdir(os.path.dirname(top))[1:]:
+                            top = os.path.dirname(top)
+                        if os.path.isdir(top) and top not in (sb, deep):
+                            shutil.rmtree(top, ignore_errors=True)
+                        elif os.path.exists(t):
+                            os.remove(t)
         res.sample({"kind": "hostile", "version": ver, "name": name,
                     "cases": n})
         return found
@@ -753,7 +803,8 @@ class RebuildCheck:
                 if f[1]["seq"] == case["seq"] and f[1]["last"] == case["last"]
                 and f[1]["single"] == case["single"]
                 and f[1].get("empty") == case.get("empty")
-                and f[1].get("link") == case.get("link")]
+                and f[1].get("link") == case.get("link")
+                and f[1].get("victims") == case.get("victims")]
         elif kind == "prestate":
             w = case["world"]
             files = world.files_of(w, case["seed"])
